@@ -303,10 +303,28 @@ def r5_formula_normal_form(ctx: Ctx) -> None:
 
 
 
+def r6_user_bus_is_per_resolver(ctx: Ctx) -> None:
+    """`.map` definitions belong to one Resolver: its bus is created in the constructor body, never shared through a default
+    argument or a module object; get_bus prefers it exactly when it has mappings."""
+    init = ctx.repo.func(SYMBOLS, "Resolver.__init__")
+    st = [n for n in walk_no_nested(init.node) if isinstance(n, (ast.Assign, ast.AnnAssign)) and unparse(n.targets[0] if isinstance(n, ast.Assign) else n.target) == "self.bus"]
+    ok = len(st) == 1 and isinstance(st[0].value, ast.Call) and call_name(st[0].value) == "Bus" and not st[0].value.args
+    ctx.check(ok, "Resolver.__init__:self.bus", f"a fresh, empty Bus() per Resolver; found `{unparse(st[0].value) if st else None}`")
+    a = init.node.args
+    for d in list(a.defaults) + [k for k in a.kw_defaults if k is not None]:
+        ctx.check(not isinstance(d, ast.Call), f"Resolver.__init__:default {unparse(d)[:30]}", "a default argument built by a call is created once and shared by every Resolver")
+    gb = ctx.repo.func(SYMBOLS, "Resolver.get_bus")
+    tests = [unparse(s.test) for s in walk_no_nested(gb.node) if isinstance(s, ast.If)]
+    ctx.check(tests == ["self.bus.has_mappings()"], "Resolver.get_bus:prefers-user-bus", f"the user bus is used exactly when it has mappings; tests {tests}")
+    hm = ctx.repo.func(MAPPING, "Bus.has_mappings")
+    r = returns_of(hm.node)
+    ctx.check(len(r) == 1 and unparse(r[0].value) in ("self.mappings != {}", "bool(self.mappings)", "len(self.mappings) > 0"), "Bus.has_mappings", "true iff some mapping was defined")
+
+
 def rb_binding_agreement(ctx: Ctx) -> None:
     from ..ownership import binding_agreement
 
     binding_agreement(ctx)
 
 
-RULES = [r1_builtin_maps, r2_mirror_construction, r3_argument_binding, r4_rejection, r5_formula_normal_form, rb_binding_agreement]
+RULES = [r1_builtin_maps, r2_mirror_construction, r3_argument_binding, r4_rejection, r5_formula_normal_form, r6_user_bus_is_per_resolver, rb_binding_agreement]
